@@ -1,6 +1,7 @@
 package tsm1
 
 import (
+	"fmt"
 	"math"
 	"os"
 	"path/filepath"
@@ -146,10 +147,17 @@ func VerifC02_TornTail() {
 	l := verifNewWAL(dir)
 	vrt.Assert(l.Open() == nil, "WAL.Open on an empty directory")
 	ops := verifWALOps(M, P)
+	// optionally the segment is closed after the first entry (as doWriteSnapshot's WAL.CloseSegment does
+	// for a snapshot that has not been committed when the process dies): recovery then reads two segments
+	roll := vrt.Choose("close_segment_after_first_entry", 0, 1) == 1
 	for i := range ops {
 		verifWALAppend(l, ops[i].entry())
+		if roll && i == 0 {
+			vrt.Assert(l.CloseSegment() == nil, "CloseSegment")
+			vrt.Reach("two segments")
+		}
 	}
-	seg := filepath.Join(dir, "_00001.wal")
+	seg := filepath.Join(dir, fmt.Sprintf("_%05d.wal", l.currentSegmentID))
 	st, err := os.Stat(seg)
 	vrt.Assert(err == nil, "segment exists")
 	acked := int(st.Size())
@@ -159,7 +167,23 @@ func VerifC02_TornTail() {
 	verifWALAppend(l, torn.entry())
 	st, _ = os.Stat(seg)
 	full := int(st.Size())
-	cut := vrt.Choose("crash_cut", acked, full)
+	// how much of the torn record reached the disk: nothing, part of its 5-byte header, the header and
+	// part of the payload, or all of it. (Positions are relative to the record so that a replay against
+	// the real snappy, whose payload length differs from the solver-side framing, lands in the same case.)
+	payload := full - acked - 5
+	cut := acked
+	switch vrt.Choose("crash_cut_kind", 0, 3) {
+	case 1:
+		cut = acked + vrt.Choose("crash_header_bytes", 1, 4)
+	case 2:
+		j := vrt.Choose("crash_payload_bytes", 0, payload-1)
+		if j > payload-1 {
+			j = payload - 1
+		}
+		cut = acked + 5 + j
+	case 3:
+		cut = full
+	}
 	vrt.Assert(os.Truncate(seg, int64(cut)) == nil, "crash: truncate")
 
 	// reopen
